@@ -27,7 +27,7 @@ ASSUMPTIONS = ["the independent walker (lib/olverif/unsupported.py) defines 'uns
 EXHAUSTIVE = {"quick": False, "thorough": False}
 FLOOR = {"quick": 5000, "thorough": 50000}
 REQUIRED_MONITORS = ["C08.rejects-unsupported"]
-SIZES = {"quick": dict(gen_hosts=14, maxpos=25), "thorough": dict(gen_hosts=150, maxpos=None)}
+SIZES = {"quick": dict(gen_hosts=8, maxpos=20), "thorough": dict(gen_hosts=150, maxpos=None)}
 
 HOSTS = {
     "positions": '''x = 1
